@@ -709,7 +709,9 @@ class EventManager(MpfController):
 
             handler.callback(queue=queue, **merged_kwargs)
 
-            if queue.waiter:
+            # wait until the queue is unlocked. it may have been cleared and locked again before this task woke up
+            # (e.g. a handler which starts its second job when the first one is done). in that case wait again
+            while queue.waiter:
                 queue.event = asyncio.Event()
                 await queue.event.wait()
 
